@@ -1,5 +1,6 @@
 import DicomModel.Lemmas.Pdu
 import DicomModel.Lemmas.PduValid
+import DicomModel.Lemmas.PduInc
 /-
 C25 — PDUs are encoded and decoded losslessly with exact framing.
 
@@ -387,6 +388,95 @@ theorem chunk16Wrapping_truncates (b : Bytes) (h : 65535 < b.length) :
   ⟨b.length % 65536, by omega, by omega, rfl⟩
 
 
+/-! ### Framing for arbitrary buffers -/
+
+/-- the PDU-length field of a buffer holding at least the 6 header bytes -/
+def declaredLen : Bytes → Option Nat
+  | _ :: _ :: a :: b :: c :: d :: _ => some (16777216 * a + 65536 * b + 256 * c + d)
+  | _ => none
+
+/-- `read_pdu` on a buffer with a complete header: framing decided by the length field alone -/
+theorem readPdu_header (mx : Nat) (strict : Bool) (hmx : validMax mx) (t z a b c d : Nat) (body : Bytes) :
+    readPdu mx strict (t :: z :: a :: b :: c :: d :: body) =
+      (if strict = true ∧ mx < 16777216 * a + 65536 * b + 256 * c + d then .err .pduTooLarge
+       else if body.length < 16777216 * a + 65536 * b + 256 * c + d then .inc
+       else (readBody t (body.take (16777216 * a + 65536 * b + 256 * c + d))).bind
+          (fun p => .ok (p, body.drop (16777216 * a + 65536 * b + 256 * c + d)))) := by
+  have h1 : ¬ ¬ (minimumPduSize ≤ mx ∧ mx ≤ maximumPduSize) := fun h => h hmx
+  have h2 : ¬ (List.length body + 1 + 1 + 1 + 1 + 1 + 1 < 2) := by omega
+  have h3 : ¬ (List.length body + 1 + 1 + 1 + 1 < 4) := by omega
+  unfold readPdu
+  rw [if_neg h1]
+  simp only [List.length_cons, if_neg h2, takeP, List.take_succ_cons, List.take_zero, List.drop_succ_cons,
+    List.drop_zero, Res.bind_eq, Res.bind_ok, if_neg h3, u32P, List.headD]
+  split
+  · rfl
+  · split
+    · rfl
+    · rfl
+
+/-- **Incomplete exactly when bytes are missing.** For *any* buffer: `read_pdu` answers `Ok(None)`
+iff the header is not complete, or the header is complete, the length is acceptable and fewer
+body bytes than declared are present. A complete PDU — however malformed — is never "incomplete". -/
+theorem incomplete_iff (mx : Nat) (strict : Bool) (hmx : validMax mx) (bs : Bytes) :
+    readPdu mx strict bs = .inc ↔
+      bs.length < 6 ∨ ∃ L, declaredLen bs = some L ∧ ¬ (strict = true ∧ mx < L) ∧ bs.length - 6 < L := by
+  have h1 : ¬ ¬ (minimumPduSize ≤ mx ∧ mx ≤ maximumPduSize) := fun h => h hmx
+  match bs with
+  | [] => simp [readPdu, h1]
+  | [_] => simp [readPdu, h1]
+  | [_, _] => simp [readPdu, hmx.1, hmx.2, takeP]
+  | [_, _, _] => simp [readPdu, hmx.1, hmx.2, takeP]
+  | [_, _, _, _] => simp [readPdu, hmx.1, hmx.2, takeP]
+  | [_, _, _, _, _] => simp [readPdu, hmx.1, hmx.2, takeP]
+  | t :: z :: a :: b :: c :: d :: body =>
+    rw [readPdu_header mx strict hmx]
+    simp only [declaredLen, List.length_cons, Option.some.injEq, exists_eq_left']
+    split
+    · rename_i h; simp [h]
+    · rename_i h
+      split
+      · rename_i h'; simp [h]; omega
+      · rename_i h'
+        have : (readBody t (List.take (16777216 * a + 65536 * b + 256 * c + d) body)).bind
+            (fun p => Res.ok (p, List.drop (16777216 * a + 65536 * b + 256 * c + d) body)) ≠ .inc := by
+          cases hb : readBody t (List.take (16777216 * a + 65536 * b + 256 * c + d) body) with
+          | ok p => simp
+          | inc => exact absurd hb (readBody_ne_inc _ _)
+          | err e => simp
+        simp [this]; omega
+
+/-- **Exact framing for any input.** Whenever `read_pdu` returns a PDU it has consumed the 6 header
+bytes and exactly the declared number of body bytes; the rest of the buffer is untouched. -/
+theorem read_ok_framing (mx : Nat) (strict : Bool) (hmx : validMax mx) (bs : Bytes) (p : Pdu) (rest : Bytes)
+    (h : readPdu mx strict bs = .ok (p, rest)) :
+    ∃ L, declaredLen bs = some L ∧ rest = bs.drop (6 + L) ∧ 6 + L ≤ bs.length := by
+  have h1 : ¬ ¬ (minimumPduSize ≤ mx ∧ mx ≤ maximumPduSize) := fun h => h hmx
+  match bs, h with
+  | [], h => simp [readPdu, h1] at h
+  | [_], h => simp [readPdu, h1] at h
+  | [_, _], h => simp [readPdu, hmx.1, hmx.2, takeP] at h
+  | [_, _, _], h => simp [readPdu, hmx.1, hmx.2, takeP] at h
+  | [_, _, _, _], h => simp [readPdu, hmx.1, hmx.2, takeP] at h
+  | [_, _, _, _, _], h => simp [readPdu, hmx.1, hmx.2, takeP] at h
+  | t :: z :: a :: b :: c :: d :: body, h =>
+    rw [readPdu_header mx strict hmx] at h
+    refine ⟨_, rfl, ?_⟩
+    split at h
+    · cases h
+    · split at h
+      · cases h
+      · rename_i h'
+        cases hb : readBody t (List.take (16777216 * a + 65536 * b + 256 * c + d) body) with
+        | ok q =>
+          simp [hb] at h
+          refine ⟨?_, by simp; omega⟩
+          rw [← h.2]
+          have : 6 + (16777216 * a + 65536 * b + 256 * c + d) = (16777216 * a + 65536 * b + 256 * c + d) + 6 := by omega
+          rw [this]
+          rfl
+        | inc => simp [hb] at h
+        | err e => simp [hb] at h
 /-! ### Exact round trip and non-vacuity -/
 
 /-- a PDU already in the reader's normal form (titles ≤ 16 bytes, no surrounding white space) -/
